@@ -92,12 +92,14 @@ func (m *Matcher) Loop() {
 
 		cacheCleared := false
 		if request.sort != m.sort || request.revision != m.revision {
-			m.sort = request.sort
-			m.revision = request.revision
-			m.mergerCache = make(map[string]*Merger)
+			// The input was replaced: the cache is keyed by chunk address, and the
+			// chunks of the new input may well live where the old ones did
 			if !request.revision.compatible(m.revision) {
 				m.cache.Clear()
 			}
+			m.sort = request.sort
+			m.revision = request.revision
+			m.mergerCache = make(map[string]*Merger)
 			cacheCleared = true
 		}
 
